@@ -46,6 +46,7 @@ type Profile struct {
 	TeardownP    int // per-mille of requests that are teardowns
 	ControlP     int // per-mille of transition requests going through the API glue (C) rather than TryTransition (T)
 	RunFocus     bool
+	OverlapP     int // per-mille of request positions holding an overlapping pair (P q1 q2)
 	DestroyHooks bool
 }
 
@@ -128,7 +129,51 @@ func GenCase(r *rng.R, p Profile) fw.Case {
 	reqs := sx.L()
 	st := "STANDBY"
 	illegal, tear := 0, 0
+	overlaps := 0
 	for i := 0; i < nr; i++ {
+		if p.OverlapP > 0 && r.P(p.OverlapP, 1000) {
+			// q2 arrives while q1 is inside its critical section (TryTransition body / first release round)
+			mkT := func(kinds []string) *sx.Node {
+				legal := []string{}
+				for e := range next[st] {
+					legal = append(legal, e)
+				}
+				sortStrings(legal)
+				ev := rng.Pick(r, events)
+				if len(legal) > 0 && !r.P(p.IllegalP, 1000) {
+					ev = rng.Pick(r, legal)
+				}
+				kind := rng.Pick(r, kinds)
+				bodyOk := !r.P(p.BodyFailP, 1000)
+				if d, ok := next[st][ev]; ok && bodyOk {
+					st = d
+				} else if kind == "C" {
+					st = "ERROR"
+				}
+				return sx.L(sx.A(kind), sx.A(ev), sx.B(bodyOk), sx.B(false))
+			}
+			mkD := func() *sx.Node {
+				force := r.P(2, 3)
+				if force || st == "STANDBY" || st == "DEPLOYED" {
+					st = "DONE"
+				}
+				return sx.L(sx.A("D"), sx.B(force), sx.B(true), sx.B(true))
+			}
+			var q1, q2 *sx.Node
+			if r.P(1, 3) {
+				q1 = mkD()
+			} else {
+				q1 = mkT([]string{"T"})
+			}
+			if r.P(1, 3) {
+				q2 = mkD()
+			} else {
+				q2 = mkT([]string{"T", "C", "C"})
+			}
+			reqs.Add(sx.L(sx.A("P"), q1, q2))
+			overlaps++
+			continue
+		}
 		if r.P(p.TeardownP, 1000) {
 			reqs.Add(sx.L(sx.A("D"), sx.B(r.P(2, 3)), sx.B(r.P(9, 10)), sx.B(r.P(9, 10))))
 			tear++
@@ -193,6 +238,9 @@ func GenCase(r *rng.R, p Profile) fw.Case {
 	if tear > 0 {
 		tags = append(tags, "teardown")
 	}
+	if overlaps > 0 {
+		tags = append(tags, "overlapping-requests")
+	}
 	return fw.Case{Input: sx.L(hooks, reqs, sx.I(r.Range(0, 2))).String(), Tags: tags}
 }
 
@@ -227,6 +275,14 @@ func Shrink(input string) []string {
 	}
 	for i := len(in.At(1).List) - 1; i >= 0; i-- {
 		out = append(out, sx.L(in.At(0), drop(in.At(1), i), in.At(2)).String())
+	}
+	for i, q := range in.At(1).List {
+		if q.At(0).Str() == "P" {
+			// the pair issued one after the other instead
+			n := sx.L()
+			n.List = append(append(append([]*sx.Node{}, in.At(1).List[:i]...), q.At(1), q.At(2)), in.At(1).List[i+1:]...)
+			out = append(out, sx.L(in.At(0), n, in.At(2)).String())
+		}
 	}
 	for i := range in.At(0).List {
 		out = append(out, sx.L(drop(in.At(0), i), in.At(1), in.At(2)).String())
